@@ -272,6 +272,43 @@ let upd_of (x : sx) : upd =
   | L [o; r] -> UArith (aop_of o, qq r)
   | _ -> failwith "upd"
 
+(* ---- M6: helpers *)
+let sq (v : q) : sx = L [A "q"; sz v.qnum; A (string_of_int (int_of_pos v.qden))]
+let rec nest_of (x : sx) : nest =
+  match x with
+  | A _ -> NAtom (zi x)
+  | L (A "l" :: items) -> NList (List.map nest_of items)
+  | _ -> failwith "nest"
+let rec snest (n : nest) : sx = match n with NAtom z -> sz z | NList l -> L (A "l" :: List.map snest l)
+let pairs_of (x : sx) : (z * z) list =
+  match x with L ps -> List.map (fun p -> match p with L [a; b] -> (zi a, zi b) | _ -> failwith "pair") ps | _ -> failwith "pairs"
+let rnest (r : nest res) : sx = match r with Ok n -> L [A "ok"; snest n] | Err k -> rerr k
+let zlist (xs : sx list) : z list = List.map zi xs
+
+(* ---- M3: identity trees *)
+let rec itree (x : sx) : iev =
+  match x with
+  | L [A "l"; i] -> ILeaf (ni i)
+  | L (A "s" :: i :: kids) -> INode (ni i, IKSeq, List.map itree kids)
+  | L (A "p" :: i :: kids) -> INode (ni i, IKSim, List.map itree kids)
+  | _ -> failwith "id tree expected"
+let oz (x : sx) : z option = match x with A "none" -> None | _ -> Some (zi x)
+let soz (v : z option) : sx = match v with None -> A "none" | Some z -> sz z
+let heap_of (x : sx) (dflt : 'a) (conv : sx -> 'a) : nat -> 'a =
+  match x with
+  | L ps ->
+      let tbl = List.map (fun p -> match p with L [i; v] -> (int_of_string (show i), conv v) | _ -> failwith "heap entry") ps in
+      (fun n -> match List.assoc_opt (int_of_nat n) tbl with Some v -> v | None -> dflt)
+  | _ -> failwith "heap"
+let gfun (x : sx) : z option -> z =
+  match x with
+  | L [A "const"; c] -> (fun _ -> zi c)
+  | L [A "addc"; c] -> (fun o -> match o with Some v -> z_of_int (int_of_z v + int_of_z (zi c)) | None -> zi c)
+  | L [A "mul"; c] -> (fun o -> match o with Some v -> z_of_int (int_of_z v * int_of_z (zi c)) | None -> Z0)
+  | _ -> failwith "g"
+let rec spval (p : pval) : sx = match p with PV v -> soz v | PT l -> L (A "t" :: List.map spval l)
+let uniq_ids (l : nat list) : int list = List.sort_uniq compare (List.map int_of_nat l)
+
 let eval (x : sx) : sx =
   match x with
   | L [A "dur"; t] -> L [A "ok"; sz (dur (tree t))]
@@ -288,6 +325,45 @@ let eval (x : sx) : sx =
            | Ok e -> go e r (L [A "ok"; stree e] :: acc)
            | Err k -> List.rev (L [A "err"; A (err_name k)] :: acc)) in
       L (A "hist" :: go (tree t) ops [])
+  | L [A "setp"; t; su; g; hp] ->
+      let t = itree t in
+      let h = set_parameter (bi su) (gfun g) t (heap_of hp None oz) in
+      L (A "ok" :: List.map (fun i -> L [A (string_of_int i); soz (h (nat_of_int i))]) (uniq_ids (leaf_positions t)))
+  | L [A "getp"; t; flat; filt; hp] ->
+      let t = itree t and h = heap_of hp None oz in
+      if bi flat then L (A "ok" :: List.map soz (get_parameter_flat (bi filt) t h))
+      else L (A "ok" :: List.map spval (get_parameter_nested (bi filt) t h))
+  | L [A "setdur"; t; nw; hp] ->
+      let t = itree t in
+      (match set_duration t (zi nw) (heap_of hp Z0 zi) with
+       | Ok h -> L (A "ok" :: sz (idur t h) :: List.map (fun i -> L [A (string_of_int i); sz (h (nat_of_int i))]) (uniq_ids (leaf_positions t)))
+       | Err k -> rerr k)
+  | L (A "sss" :: target :: xs) -> L (A "ok" :: List.map sq (scale_sequence_to_sum (List.map qq xs) (qq target)))
+  | L (A "acc" :: n :: xs) -> L (A "ok" :: List.map sz (accumulate_from_n (zlist xs) (zi n)))
+  | L (A "cyc" :: xs) -> L (A "ok" :: List.map (fun l -> L (List.map sz l)) (cyclic_permutations (zlist xs)))
+  | L (A "closest" :: item :: xs) ->
+      (match find_closest_index (zi item) (zlist xs) with Ok i -> L [A "ok"; sn i] | Err k -> rerr k)
+  | L (A "uniq" :: xs) -> L (A "ok" :: List.map sz (uniqify (zlist xs)))
+  | L (A "nget" :: n :: path) -> rnest (nget (List.map ni path) (nest_of n))
+  | L (A "nset" :: n :: item :: path) -> rnest (nset (List.map ni path) (nest_of item) (nest_of n))
+  | L (A "ndel" :: n :: path) -> rnest (ndel (List.map ni path) (nest_of n))
+  | L [A "sums"; t] ->
+      let t = zi t in L (A "ok" :: List.map (fun l -> L (List.map sz l)) (find_sums t (default_numbers t) (default_counts t)))
+  | L [A "sums"; t; L nums; L cnts] ->
+      L (A "ok" :: List.map (fun l -> L (List.map sz l)) (find_sums (zi t) (zlist nums) (List.map ni cnts)))
+  | L [A "attr"; ps; name; dflt] -> L [A "ok"; sz (chronon_to_attribute (pairs_of ps) (zi name) (zi dflt))]
+  | L [A "kwarg"; ps; search; kw] ->
+      (match dict_to_keyword_argument (pairs_of ps) (zi search) (zi kw) with
+       | Some (k, v) -> L [A "ok"; sz k; sz v] | None -> L [A "ok"; A "none"])
+  | L [A "chronon"; ps; convs] ->
+      L (A "ok" :: List.map (fun (k, v) -> L [sz k; sz v]) (dict_to_chronon (pairs_of ps) (pairs_of convs)))
+  | L (A "lazy" :: force :: calls) ->
+      (* wrapped function: a -> a * a + 1 *)
+      let f (a : z) : z = z_of_int (int_of_z a * int_of_z a + 1) in
+      let eqb (a : z) (b : z) = int_of_z a = int_of_z b in
+      L (A "ok" :: List.map (fun (v, ran) -> L [sz v; sb ran]) (lazy_run eqb f (bi force) None (zlist calls)))
+  | L (A "scale" :: a :: b :: c :: d :: sh :: vs) ->
+      L (A "ok" :: List.map (fun v -> sf (scale fnum (fl v) (fl a) (fl b) (fl c) (fl d) (fl sh))) vs)
   | L [A "cmp"; d; r] ->
       let d = durv_of d and r = qq r in
       L [A "ok"; sb (d_lt d r); sb (d_le d r); sb (d_eq d r); sb (d_ne d r); sb (d_ge d r); sb (d_gt d r)]
